@@ -318,6 +318,11 @@ class InterpBase:
             if is_host(v):
                 op = {ast.USub: operator.neg, ast.UAdd: operator.pos, ast.Invert: operator.invert}[type(e.op)]
                 return [(s, op(v))]
+            h = self.specs.get(("unop", type(e.op)))  # contract-supplied spec for -x / +x / ~x on an opaque value
+            if h is not None and isinstance(v, Sym) and v.k == "obj":
+                r = h(self, s, [v], {}, e)
+                if r is not None:
+                    return r
             raise Unsupported("unary op on symbolic value", e)
 
         return seq(self.ev(e.operand, st, fr), f)
